@@ -61,6 +61,7 @@ THEOREMS = [
     "Pest.C15.calls_commute",
     "Pest.C15.interleaving_irrelevant",
     "Pest.C15.schedule_independent",
+    "Pest.C15.parse_interleaving_partial",
     "Pest.C15.old_optimizer_breaks_isolation",
     "Pest.C15.old_optimizer_rewrites_callers_rules",
 ]
@@ -537,7 +538,12 @@ def job_history(job: dict) -> dict:
     outs = [proc.step(i, s) for i, s in enumerate(job["steps"])]
     if mon:
         mon.recheck_caches()
-    model = proc.encode_model(job["steps"], outs) if job.get("encode", True) else None
+    model = None
+    if job.get("encode", True):
+        try:
+            model = proc.encode_model(job["steps"], outs)
+        except Exception:  # noqa: BLE001   (an object the serialiser does not know: the history is not sent to the model)
+            model = None
     return {"outs": outs, "events": mon.events if mon else [], "writes": dict(mon.counts) if mon else {}, "model": model}
 
 
@@ -1270,6 +1276,8 @@ def run(out: Outcome) -> None:
         "explanation": ("process-level model (shared built-in table, callers' rule mappings, parser objects, generated modules, lazy caches): "
                         "invariants and history independence proved for every history of current-tree operations; on the code: write-set monitor, "
                         "random histories vs fresh-process runs, thread runs vs sequential runs, histories replayed in the Lean model"),
+        "open_statements": ["parse_interleaving: every bytecode-level step of CPython's parse() is a Transparent thread step over the lazy caches "
+                            "(assumed; proved part: parse_interleaving_partial / interleaving_irrelevant)"],
         "what_is_proved": ("for every finite history of newMapping/newParser(any passes)/generate/parse/parseGen in the model: Parser.BUILTIN and the "
                            "callers' rule objects are never written, created objects never change, every call returns what it returns in a fresh "
                            "process; calls write only idempotent cache flags, commute, and do not affect each other (granularity: a whole call); "
